@@ -29,8 +29,7 @@ Fixpoint submodels_copyable_seq (K : consts) (h : heap) (cs : list (Z * val)) : 
   match cs with
   | [] => True
   | (k, VR l) :: r =>
-    (exists o, nth_error h l = Some o /\ NoDup (map fst (ocells o)) /\
-               (forall x, In x (copy_fresh_keys K h l) -> In x (map fst (ocells o)))) /\
+    (exists o, nth_error h l = Some o /\ NoDup (map fst (ocells o))) /\
     (forall h1 l', copy_M K h l = Some (h1, l') -> submodels_copyable_seq K h1 r)
   | (_, VS _) :: _ => True
   end.
@@ -46,8 +45,8 @@ Proof.
   - destruct v as [z|l]; [discriminate|].
     destruct (copy_M K h l) as [[h1 l']|] eqn:Cp; [|discriminate].
     destruct (copy_submodels K h1 r) as [[h2 r']|] eqn:E; [|discriminate]. inversion H; subst; clear H.
-    destruct SC as ((o & Ho & ND & FK) & SCr).
-    destruct (copy_sim K h l h1 l' o Cp W Ho ND FK) as (_ & S1).
+    destruct SC as ((o & Ho & ND) & SCr).
+    destruct (copy_sim K h l h1 l' o Cp W Ho ND) as (_ & S1).
     destruct (copy_M_spec _ _ _ _ _ Cp W) as (W1 & C1 & B1 & U1).
     assert (L1 : (length h <= length h1)%nat) by lia.
     assert (Br : forall k0 l0, In (k0, VR l0) r -> (l0 < length h1)%nat).
